@@ -850,6 +850,13 @@ MUTANTS = [
          new="""                    stringify!(#name)
                 );""",
          expect="C14.b/derived-names-carry-the-full-path"),
+    dict(id="C11.e-upper-bound-not-truncated", prop="C11", file=ST + "kv_database/rocksdb.rs",
+         old="                upper_bound.truncate(i + 1);\n", new="",
+         expect="C11.e/rocksdb/scan-upper-bound-is-the-prefix-successor"),
+    dict(id="C10.a-gives-up-after-first-physical-commit", prop="C10", file=ST + "write_manager/write_behind.rs",
+         old="                    current_batch.flush(db, after_commit_sender, shutting_down);\n                }\n            } else {",
+         new="                    current_batch.flush(db, after_commit_sender, shutting_down);\n                    break;\n                }\n            } else {",
+         expect="C10.a/process_pending_commits/drains-until-nothing-is-ready"),
     # ------------------------------------------------------------------ C09.f (D5)
     dict(id="C09.f-D5-fold-heap-in-arbitrary-order", prop="C09", file=ST + "key_of_set_map/cache.rs",
          old="""        let mut ordered = log.iter().collect::<Vec<_>>();
